@@ -414,6 +414,44 @@ def validate_bool(value, name, optional=False):
     return value
 
 
+def validate_normalize_per_time_point(value, name="normalize_per_time_point"):
+    """
+    Validates the time-point normalization target: a bool, None, a dict mapping
+    time points to cell counts, or a list / array of cell counts.
+
+    Parameters
+    ----------
+    value : any
+        The value to be validated.
+    name : str
+        The name of the parameter to be used in the error message.
+
+    Returns
+    -------
+    bool, None, dict, or array-like
+        The validated value. NumPy and JAX booleans are returned as bool.
+
+    Raises
+    ------
+    TypeError
+        If the value is a scalar other than a bool, or a string.
+    """
+
+    if value is None or isinstance(value, (bool, dict)):
+        return value
+
+    if getattr(value, "ndim", None) == 0:
+        if getattr(getattr(value, "dtype", None), "kind", "") == "b":
+            return bool(value)
+    elif hasattr(value, "__len__") and not isinstance(value, str):
+        return value
+
+    raise TypeError(
+        f"{name} should be a bool, a list or array of cell counts, or a dict, "
+        f"got {type(value)} instead."
+    )
+
+
 def validate_string(value, name, choices=None):
     """
     Validates whether a given value is a string and optionally whether it is in a set of choices.
